@@ -195,11 +195,18 @@ pub fn run_writer(j: &Value, t: &mut Trace, run_id: usize) -> Option<(Vec<u8>, V
     newev["bs"] = json!(block_size as i64);
     let cur = SharedBuf::with_prefix(vec![0xEEu8; start_offset]);
     flac_codec::verif::install();
+    // the CD-DA convenience constructors are the general ones at 44100 Hz / 16 bits / 2 channels
+    let cdda = j["cdda"].as_bool().unwrap_or(false) && rate == 44100 && bps == 16 && channels == 2;
+    newev["cdda"] = json!(cdda);
     let made = catch(|| -> Result<AnyWriter, String> {
-        Ok(match fe {
-            "byte-le" => AnyWriter::ByteLe(FlacByteWriter::new(cur.clone(), opts, rate, bps, channels, total).map_err(|e| e.to_string())?),
-            "byte-be" => AnyWriter::ByteBe(FlacByteWriter::new(cur.clone(), opts, rate, bps, channels, total).map_err(|e| e.to_string())?),
-            "sample" => AnyWriter::Sample(FlacSampleWriter::new(cur.clone(), opts, rate, bps, channels, total).map_err(|e| e.to_string())?),
+        Ok(match (fe, cdda) {
+            ("byte-le", true) => AnyWriter::ByteLe(FlacByteWriter::new_cdda(cur.clone(), opts, total).map_err(|e| e.to_string())?),
+            ("byte-be", true) => AnyWriter::ByteBe(FlacByteWriter::new_cdda(cur.clone(), opts, total).map_err(|e| e.to_string())?),
+            ("sample", true) => AnyWriter::Sample(FlacSampleWriter::new_cdda(cur.clone(), opts, total).map_err(|e| e.to_string())?),
+            (_, true) => AnyWriter::Channel(FlacChannelWriter::new_cdda(cur.clone(), opts, total).map_err(|e| e.to_string())?),
+            ("byte-le", _) => AnyWriter::ByteLe(FlacByteWriter::new(cur.clone(), opts, rate, bps, channels, total).map_err(|e| e.to_string())?),
+            ("byte-be", _) => AnyWriter::ByteBe(FlacByteWriter::new(cur.clone(), opts, rate, bps, channels, total).map_err(|e| e.to_string())?),
+            ("sample", _) => AnyWriter::Sample(FlacSampleWriter::new(cur.clone(), opts, rate, bps, channels, total).map_err(|e| e.to_string())?),
             _ => AnyWriter::Channel(FlacChannelWriter::new(cur.clone(), opts, rate, bps, channels, total).map_err(|e| e.to_string())?),
         })
     });
